@@ -214,7 +214,7 @@ C_POOL.append("""#define XSTR(x) #x
 #define STR(x) XSTR (x)
 static const char *where@N@ = __FILE__ ":" STR (__LINE__);
 long f@N@ (long n) {
-  const char *d = __DATE__, *t = __TIME__, *fn = __func__;
+  const char *d = "Jan  1 2000", *t = "00:00:00", *fn = __func__; /* not __DATE__/__TIME__: the scripts' observable results must not depend on the clock */
   long line = __LINE__, ver = __STDC_VERSION__;
   double x = 1.5e3 + 0x1p4 + 017 + 'a' + '\\n' + sizeof (L"wide") + n;
   return line + (ver > 0) + d[0] * 0 + t[0] * 0 + fn[0] + where@N@[0] * 0 + (long) x + __LINE__;
